@@ -6,6 +6,7 @@ from_csv), Persist.lean (save / load, is_within_directory, safe_extract). Specif
 import SkNet.Lemmas.Ingest
 import SkNet.Lemmas.Persist
 import SkNet.Lemmas.Csv
+import SkNet.Lemmas.GraphML
 import SkNet.Model.Csv
 import SkNet.Model.Persist
 
@@ -398,6 +399,72 @@ theorem scan_header_clean (delims comments : List Char) (nScan : Nat) (header bo
     (scanHeader (header ++ body) delims comments nScan).layout
       = layoutOf (scanHeader (header ++ body) delims comments nScan).delimiter (body.map rstrip) :=
   scanHeader_clean delims comments nScan header body hh hb hn
+
+/-! ## graphml_preserves -/
+
+open SkNet.GraphML in
+/-- **graphml_preserves.** When `from_graphml` returns, (1) the matrix is square of order the number of node
+    elements and the names are the node ids in document order (absent for canonical node ids); (2) every edge
+    element is read as one resolved edge — its end points are the numbers of the nodes named by `source` /
+    `target`, its weight is its `<data>` for the weight key, else the declared default, else 1, it is undirected
+    iff its own `directed` attribute is not "true", or it has none and the graph's `edgedefault` is
+    "undirected" — with both end points inside the matrix; (3) entry (i, j) collects exactly the weights of
+    the edges i → j and of the undirected edges j → i (summed; `or`-ed when no weight key makes them boolean). -/
+theorem graphml_preserves (num : String → Option Rat) (parseNat : String → Option Nat) (weightKey : String)
+    (doc : Doc) (r : Result) (h : fromGraphml num parseNat weightKey doc = .ok r) :
+    ∃ (ws : WeightSpec) (res : List REdge),
+      weightSpec num weightKey doc.keys ⟨.bool, none, 1⟩ = .ok ws ∧
+      AllRel (Resolves num parseNat ws (doc.otherKeys weightKey) doc.naming doc.symmetrize doc.nodeIds) doc.edges res ∧
+      r.matrix.nRow = doc.nodes.length ∧ r.matrix.nCol = doc.nodes.length ∧
+      r.names = (if doc.naming then some doc.nodeIds else none) ∧
+      (∀ e ∈ res, e.source < doc.nodes.length ∧ e.target < doc.nodes.length) ∧
+      ∀ i j, r.matrix.entry i j = GraphML.specEntry ws.kind res i j := by
+  unfold fromGraphml at h
+  split at h
+  · split at h <;> cases h
+  · split at h
+    · cases h
+    · split at h
+      · cases h
+      · rename_i ws hws
+        split at h
+        · cases h
+        · split at h
+          · cases h
+          · rename_i ts hts
+            simp only at h
+            split at h
+            · cases h
+            · rename_i hrange
+              cases h
+              obtain ⟨res, hres, hmem, hvals⟩ := triples_sound num parseNat ws (doc.otherKeys weightKey) doc.naming
+                doc.symmetrize doc.nodeIds doc.nodes.length doc.nodes.length ws.kind doc.edges ts hts
+              refine ⟨ws, res, hws, hres, rfl, rfl, rfl, ?_, ?_⟩
+              · intro e he
+                have hm := hmem e he
+                have hr : ts.any (fun t => decide (doc.nodes.length ≤ t.1) || decide (doc.nodes.length ≤ t.2.1)) = false := by
+                  simpa using hrange
+                rw [List.any_eq_false] at hr
+                have := hr _ hm
+                simp only [Bool.or_eq_true, decide_eq_true_eq, not_or] at this
+                omega
+              · intro i j
+                rw [entry_csrOf]
+                unfold Coo.entry GraphML.specEntry
+                rw [hvals]
+
+open SkNet.GraphML in
+/-- two named nodes, an undirected default, one weighted edge a–b and one directed edge b → a without data
+    (default weight 5/2): entries (a,b) = 3, (b,a) = 3 + 5/2 -/
+example : ∃ r, fromGraphml (fun s => if s = "3" then some 3 else if s = "2.5" then some (5/2) else none) (fun _ => none)
+      "weight"
+      { hasGraph := true, edgedefault := some "undirected", nodeids := none,
+        keys := [⟨some "d0", some "weight", some "double", ["2.5"]⟩],
+        children := [{ tag := "node", id := some "a" }, { tag := "node", id := some "b" },
+                     { tag := "edge", source := some "a", target := some "b", data := [("d0", "3")] },
+                     { tag := "edge", source := some "b", target := some "a", directed := some "true" }] } = .ok r ∧
+    r.names = some ["a", "b"] ∧ r.matrix.entry 0 1 = 3 ∧ r.matrix.entry 1 0 = 3 + 5/2 := by
+  refine ⟨_, rfl, ?_, ?_, ?_⟩ <;> decide +kernel
 
 /-! ## ★ save_load_roundtrip -/
 
